@@ -279,7 +279,17 @@ func newWorld(r *vlib.Rand) *world {
 		for ia == w.local { // a neighbour is never the local AS (topology invariant)
 			ia = w.randIA()
 		}
-		w.intfs[id] = ifstate.InterfaceInfo{ID: id, IA: ia, LinkType: lts[r.Intn(len(lts))],
+		lt := lts[r.Intn(len(lts))]
+		switch len(w.ifids) { // make sure beacons can arrive and can be propagated
+		case 0:
+			lt = lts[r.Intn(2)]
+		case 1:
+			lt = topology.Child
+			if w.core {
+				lt = topology.Core
+			}
+		}
+		w.intfs[id] = ifstate.InterfaceInfo{ID: id, IA: ia, LinkType: lt,
 			InternalAddr: netip.MustParseAddrPort("10.0.0.1:30042"), RemoteID: 1, MTU: 1400}
 		w.ifids = append(w.ifids, id)
 	}
@@ -290,6 +300,9 @@ func newWorld(r *vlib.Rand) *world {
 	}
 	for i := 0; i < np; i++ {
 		w.pols = append(w.pols, w.randFilter())
+	}
+	if r.Chance(60) { // a permissive propagation policy, so that the propagator gets work
+		w.pols[0] = filt{maxHops: 0, allow: r.Intn(3) - 1}
 	}
 	w.propAl = r.Bool()
 	return w
@@ -307,6 +320,14 @@ func (w *world) genBeacon(segID uint16) rbeacon {
 	r := w.r
 	var b rbeacon
 	b.inIf = w.ifids[r.Intn(len(w.ifids))]
+	if r.Chance(60) { // prefer links beacons are accepted on
+		for _, id := range w.ifids {
+			if lt := w.intfs[id].LinkType; (lt == topology.Parent || lt == topology.Core) && r.Chance(60) {
+				b.inIf = id
+				break
+			}
+		}
+	}
 	if r.Chance(5) {
 		b.inIf = 99 // no such interface
 	}
@@ -487,7 +508,7 @@ func main() {
 		"beacons on all propagation interfaces; direct Filter.Apply/FilterLoop lines on random hop lists incl. wildcard IAs; " +
 		"non-trivial = beacon reached validateASEntry, or propagation decision on a stored beacon"
 	ctx := context.Background()
-	ncase := e.N(1500, 30000)
+	ncase := e.N(2500, 40000)
 	polTags := func(core bool) []string {
 		if core {
 			return []string{"prop", "core"}
